@@ -32,6 +32,18 @@ import (
 	"reservoir/webserver/auth"
 )
 
+// a panic in a worker goroutine (e.g. a slice torn by a racing writer) is part of the observation, not a harness crash
+var rsPanicMu sync.Mutex
+var rsPanics []string
+
+func rsRecover() {
+	if r := recover(); r != nil {
+		rsPanicMu.Lock()
+		rsPanics = append(rsPanics, fmt.Sprint(r))
+		rsPanicMu.Unlock()
+	}
+}
+
 func rsCache(dir, backend string, seed uint64, workers, ops int) {
 	cfg := config.NewDefault()
 	limit := int64(2500)
@@ -58,6 +70,7 @@ func rsCache(dir, backend string, seed uint64, workers, ops int) {
 		wg.Add(1)
 		go func(w int) {
 			defer wg.Done()
+			defer rsRecover()
 			r := NewRng(seed*977 + uint64(w))
 			local := 0
 			for i := 0; i < ops; i++ {
@@ -120,6 +133,7 @@ func rsEvent(seed uint64, workers, ops int) {
 		wg.Add(1)
 		go func(w int) {
 			defer wg.Done()
+			defer rsRecover()
 			r := NewRng(seed*31 + uint64(w))
 			var unsubs []event.Unsubscribe
 			for i := 0; i < ops; i++ {
@@ -153,6 +167,7 @@ func rsSyncMap(seed uint64, workers, ops int) {
 		wg.Add(1)
 		go func(w int) {
 			defer wg.Done()
+			defer rsRecover()
 			r := NewRng(seed*53 + uint64(w))
 			n := 0
 			for i := 0; i < ops; i++ {
@@ -192,6 +207,7 @@ func rsSession(seed uint64, workers, ops int) {
 		wg.Add(1)
 		go func(w int) {
 			defer wg.Done()
+			defer rsRecover()
 			r := NewRng(seed*71 + uint64(w))
 			for i := 0; i < ops; i++ {
 				idsMu.Lock()
@@ -235,7 +251,9 @@ func rsSession(seed uint64, workers, ops int) {
 }
 
 func rsProxyRun(px *pxState, base, backend string, seed uint64, workers, ops int) string {
-	metrics.Global = metrics.NewMetrics()
+	if !raceEnabled {
+		metrics.Global = metrics.NewMetrics()
+	}
 	cfg := config.NewDefault()
 	cfg.Proxy.UpstreamDefaultHttps.Overwrite(false)
 	cfg.Proxy.CachePolicy.IgnoreCacheControl.Overwrite(false)
@@ -291,6 +309,7 @@ func rsProxyRun(px *pxState, base, backend string, seed uint64, workers, ops int
 		wg.Add(1)
 		go func(w int) {
 			defer wg.Done()
+			defer rsRecover()
 			r := NewRng(seed*19 + uint64(w))
 			cl := &http.Client{Transport: &http.Transport{Proxy: http.ProxyURL(pu)}, Timeout: 10 * time.Second}
 			for i := 0; i < ops; i++ {
@@ -328,6 +347,16 @@ func init() {
 				workers, _ := strconv.Atoi(f[4])
 				ops, _ := strconv.Atoi(f[5])
 				o.Count("scenario:" + f[2])
+				rsPanicMu.Lock()
+				rsPanics = nil
+				rsPanicMu.Unlock()
+				defer func() {
+					rsPanicMu.Lock()
+					if len(rsPanics) > 0 && obs == "completed" {
+						obs = "panic(" + rsPanics[0] + ")"
+					}
+					rsPanicMu.Unlock()
+				}()
 				switch f[2] {
 				case "cache-mem":
 					rsCache(base+"/c", "mem", seed, workers, ops)
